@@ -85,6 +85,12 @@ Fixpoint p_expr (fuel : nat) (w : list string) : option (expr * list string) :=
                          z <- many 1%nat r3 ;; let '(l, r') := z in Some (Node (KSwz idx) t lv l, r')
             | [] => None
             end
+          else if String.eqb tag "MSwz" then
+            match r with
+            | n :: r2 => n <- parse_N n ;; i <- p_Ns (N.to_nat n) r2 ;; let '(idx, r3) := i in
+                         z <- many 1%nat r3 ;; let '(l, r') := z in Some (Node (KMSwz idx) t lv l, r')
+            | [] => None
+            end
           else if String.eqb tag "Opq" then
             match r with
             | what :: n :: r2 => n <- parse_N n ;; z <- many (N.to_nat n) r2 ;; let '(l, r') := z in Some (Node (KOpq what) t lv l, r')
@@ -218,7 +224,7 @@ Fixpoint show_ty (t : ty) : string :=
   end.
 Definition kind_name (k : kind) : string :=
   match k with
-  | KLit => "Lit" | KVar => "Var" | KEVal => "EnumValue" | KTern => "Ternary" | KSeq => "Sequence" | KSwz _ => "Swizzle"
+  | KLit => "Lit" | KVar => "Var" | KEVal => "EnumValue" | KTern => "Ternary" | KSeq => "Sequence" | KSwz _ => "Swizzle" | KMSwz _ => "MatrixSwizzle"
   | KOpq w => w | KSub => "Subscript" | KSMem sid _ => String.append "Member-of-struct#" (show_N sid)
   | KCall _ _ _ ps _ => String.append "Call(" (String.append (join "," (map (fun p => String.append (show_N (fst p)) (String.append ":" (show_ty (snd p)))) ps)) ")")
   | KCtor _ => "Constructor" | KCast => "Cast" | KSizeOf => "SizeOf" | KOp n => n
